@@ -1,3 +1,3 @@
 """Sidecar contracts for /repo/src (no file under /repo is edited).  Importing the package loads every
 contract module, so call-site contracts are the same whichever property is being checked."""
-from . import core, dt_util, dt_insv, tags, dt_try, dt_if, dt_in, dt_ns, dt_string, dt_insv_vars, dt_sort, dt_stats, dt_var, c03, c19, c04, c05, frames, parser  # noqa
+from . import core, dt_util, dt_insv, tags, dt_try, dt_if, dt_in, dt_ns, dt_string, dt_insv_vars, dt_sort, dt_stats, dt_var, c03, c19, c04, c05, frames, parser, c20  # noqa
